@@ -1,0 +1,219 @@
+//go:build verif
+
+package persistence
+
+// Contracts for package persistence, read by /verif/govc (comment-only file, compiled only with -tags verif).
+//
+// Abstract view of the database (owned by the assumed bbolt contract): which buckets exist, which keys
+// each bucket holds and the stored bytes (as an abstract string). The tx* variables are the working copy
+// of a running read-write transaction; (*bolt.DB).Update commits them iff the function literal returns nil.
+
+//@ ghost var dbBucket gset[string]
+//@ ghost var dbHas gmap[string]gmap[string]bool
+//@ ghost var dbVal gmap[string]gmap[string]string
+//@ ghost var txBucket gset[string]
+//@ ghost var txHas gmap[string]gmap[string]bool
+//@ ghost var txVal gmap[string]gmap[string]string
+//@ ghost var bucketName gmap[int]string
+//@ ghost var jsonDom gmap[string]gmap[int]bool
+//@ ghost var jsonValF gmap[string]gmap[int]real
+//@ ghost var jsonValFK gmap[string]gmap[int]int
+//@ ghost var jsonValI gmap[string]gmap[int]int
+//@ ghost var jsonOkF gset[string]
+//@ ghost var jsonOkI gset[string]
+//@ ghost var decodeFailed bool
+
+//@ pure dbWF() bool = forall n string, k string :: dbHas[n][k] ==> n in dbBucket
+//@ pure txWF() bool = forall n string, k string :: txHas[n][k] ==> n in txBucket
+//@ pure fanId(fan fans.Fan) string = fan is *fans.HwMonFan ? fan.(*fans.HwMonFan).Config.ID : (fan is *fans.FileFan ? fan.(*fans.FileFan).Config.ID : fan.(*fans.CmdFan).Config.ID)
+//@ pure othersSame(n0 string, k0 string) bool = forall n string, k string :: !(n == n0 && k == k0) ==> dbHas[n][k] == old(dbHas)[n][k] && dbVal[n][k] == old(dbVal)[n][k]
+//@ pure txOthersSame(n0 string, k0 string) bool = forall n string, k string :: !(n == n0 && k == k0) ==> txHas[n][k] == old(txHas)[n][k] && txVal[n][k] == old(txVal)[n][k]
+
+//@ pure encF(s string, m map[int]float64) bool = jsonDom[s] == mapdom(m) && forall k int :: k in mapdom(m) ==> jsonValF[s][k] == mapval(m)[k] && jsonValFK[s][k] == mapvalk(m)[k]
+//@ pure encI(s string, m map[int]int) bool = jsonDom[s] == mapdom(m) && forall k int :: k in mapdom(m) ==> jsonValI[s][k] == mapval(m)[k]
+
+// ---- assumed contracts of bbolt and encoding/json ---------------------------------------------------------
+//@ extern func go.etcd.io/bbolt.Open(path string, mode os.FileMode, options *bolt.Options) (db *bolt.DB, err error)
+//@   ensures err == nil ==> db != nil
+//@   trusted "bbolt.Open returns a handle or an error (timeout 1 min)"
+//@ extern func (db *go.etcd.io/bbolt.DB).Close() (err error)
+//@   effectfree
+//@   trusted "closing the handle does not change stored data"
+//@ extern func (db *go.etcd.io/bbolt.DB).Update(fn func) (err error)
+//@   callback txn dbBucket:txBucket dbHas:txHas dbVal:txVal
+//@   trusted "bbolt: Update runs fn exactly once inside a read-write transaction on a snapshot, commits iff fn returns nil (the commit itself may fail, then nothing is stored), atomically and durably - also across a crash (this is the crash-point half of C14 and is NOT verified here)"
+//@ extern func (tx *go.etcd.io/bbolt.Tx).CreateBucketIfNotExists(name []byte) (b *bolt.Bucket, err error)
+//@   ensures err == nil ==> b != nil && bucketName[ref(b)] == strof(name) && txBucket == old(txBucket)[strof(name) := true]
+//@   ensures err != nil ==> txBucket == old(txBucket)
+//@   modifies txBucket
+//@   trusted "bbolt bucket API over the abstract view"
+//@ extern func (tx *go.etcd.io/bbolt.Tx).Bucket(name []byte) (b *bolt.Bucket)
+//@   ensures (b != nil) == (strof(name) in txBucket) && (b != nil ==> bucketName[ref(b)] == strof(name))
+//@   trusted "bbolt bucket API over the abstract view"
+//@ extern func (b *go.etcd.io/bbolt.Bucket).Get(key []byte) (v []byte)
+//@   ensures (v != nil) == txHas[bucketName[ref(b)]][strof(key)] && (v != nil ==> strof(v) == txVal[bucketName[ref(b)]][strof(key)])
+//@   trusted "bbolt bucket API over the abstract view"
+//@ extern func (b *go.etcd.io/bbolt.Bucket).Put(key []byte, value []byte) (err error)
+//@   ensures err == nil ==> txHas == old(txHas)[bucketName[ref(b)] := old(txHas)[bucketName[ref(b)]][strof(key) := true]] && txVal == old(txVal)[bucketName[ref(b)] := old(txVal)[bucketName[ref(b)]][strof(key) := strof(value)]]
+//@   ensures err != nil ==> txHas == old(txHas) && txVal == old(txVal)
+//@   modifies txHas, txVal
+//@   trusted "bbolt bucket API over the abstract view"
+//@ extern func (b *go.etcd.io/bbolt.Bucket).Delete(key []byte) (err error)
+//@   ensures err == nil ==> txHas == old(txHas)[bucketName[ref(b)] := old(txHas)[bucketName[ref(b)]][strof(key) := false]] && txVal == old(txVal)
+//@   ensures err != nil ==> txHas == old(txHas) && txVal == old(txVal)
+//@   ensures old(txHas)[bucketName[ref(b)]][strof(key)] ==> err == nil
+//@   modifies txHas, txVal
+//@   trusted "bbolt bucket API over the abstract view; Delete of a key that Get just returned cannot fail inside Update (writable tx, not a nested bucket)"
+//@ extern func encoding/json.Marshal(v any) (data []byte, err error)
+//@   ensures err == nil ==> data != nil
+//@   ensures err == nil && v is map[int]float64 ==> jsonDom[strof(data)] == mapdom(v.(map[int]float64)) && jsonValF[strof(data)] == mapval(v.(map[int]float64)) && jsonValFK[strof(data)] == mapvalk(v.(map[int]float64)) && strof(data) in jsonOkF
+//@   ensures err == nil && v is map[int]int ==> jsonDom[strof(data)] == mapdom(v.(map[int]int)) && jsonValI[strof(data)] == mapval(v.(map[int]int)) && strof(data) in jsonOkI
+//@   trusted "encoding/json: an encoded map[int]T decodes to the same keys and values (finite values; Marshal fails on NaN/Inf)"
+//@ extern func encoding/json.Unmarshal(data []byte, v any) (err error)
+//@   ensures err == nil && v is *map[int]float64 ==> *v.(*map[int]float64) != nil && mapdom(*v.(*map[int]float64)) == jsonDom[strof(data)] && mapval(*v.(*map[int]float64)) == jsonValF[strof(data)] && mapvalk(*v.(*map[int]float64)) == jsonValFK[strof(data)]
+//@   ensures err == nil && v is *map[int]int ==> *v.(*map[int]int) != nil && mapdom(*v.(*map[int]int)) == jsonDom[strof(data)] && mapval(*v.(*map[int]int)) == jsonValI[strof(data)]
+//@   ensures v is *map[int]float64 && strof(data) in jsonOkF ==> err == nil
+//@   ensures v is *map[int]int && strof(data) in jsonOkI ==> err == nil
+//@   ensures decodeFailed == (err != nil)
+//@   modifies decodeFailed, *v.(*map[int]float64) if v is *map[int]float64, *v.(*map[int]int) if v is *map[int]int
+//@   trusted "encoding/json: Unmarshal may fail and may then have partially written its target"
+
+// ---- fan curve data (bucket "fans") --------------------------------------------------------------------------
+
+//@ func (persistence).openPersistence
+//@   ensures err == nil ==> db != nil
+//@   modifies nothing
+
+//@ func (persistence).SaveFanPwmData$1
+//@   requires db != nil
+//@   modifies nothing
+//@ func (persistence).SaveFanPwmData$2
+//@   props C14
+//@   requires tx != nil && txWF()
+//@   ensures result == nil ==> txHas == old(txHas)["fans" := old(txHas)["fans"][*key := true]] && txVal == old(txVal)["fans" := old(txVal)["fans"][*key := strof(*data)]] && txBucket == old(txBucket)["fans" := true]
+//@   ensures txWF()
+//@   modifies txBucket, txHas, txVal
+
+//@ func (persistence).SaveFanPwmData
+//@   props C14
+//@   requires fans.fanWF(fan) && fans.dataPtr(fan) != nil && dbWF() && ref(*fans.dataPtr(fan)) < W
+//@   ensures[C14.save.has]  err == nil ==> dbHas["fans"][fanId(fan)] && othersSame("fans", fanId(fan))
+//@   ensures[C14.save.val]  err == nil ==> (dbVal["fans"][fanId(fan)] in jsonOkF) && encF(dbVal["fans"][fanId(fan)], *fans.dataPtr(fan))
+//@   ensures[C14.save.atomic] err != nil ==> dbHas == old(dbHas) && dbVal == old(dbVal) && dbBucket == old(dbBucket)
+//@   ensures dbWF()
+//@   modifies dbBucket, dbHas, dbVal, txBucket, txHas, txVal
+//@   loop 1 "for key, value := range *fan.GetFanRpmCurveData()"
+//@     invariant fanCurveDataMap != nil && ref(fanCurveDataMap) >= old(W) && ref(fanCurveDataMap) != ref(*fans.dataPtr(fan))
+//@     invariant mapdom(*fans.dataPtr(fan)) == old(mapdom(*fans.dataPtr(fan))) && mapval(*fans.dataPtr(fan)) == old(mapval(*fans.dataPtr(fan))) && mapvalk(*fans.dataPtr(fan)) == old(mapvalk(*fans.dataPtr(fan)))
+//@     invariant mapdom(fanCurveDataMap) == visited#1 && forall k int :: k in visited#1 ==> k in mapdom(*fans.dataPtr(fan))
+//@     invariant forall k :: k in visited#1 ==> mapval(fanCurveDataMap)[k] == mapval(*fans.dataPtr(fan))[k] && mapvalk(fanCurveDataMap)[k] == mapvalk(*fans.dataPtr(fan))[k]
+
+//@ func (persistence).LoadFanPwmData$1
+//@   requires db != nil
+//@   modifies nothing
+//@ func (persistence).LoadFanPwmData$2
+//@   props C14
+//@   requires tx != nil && txWF()
+//@   ensures[C14.tx.missing] !old(txHas)["fans"][*key] ==> result == os.ErrNotExist && txHas == old(txHas) && txVal == old(txVal)
+//@   ensures[C14.tx.present] old(txHas)["fans"][*key] ==> result == nil && (decodeFailed == (txHas != old(txHas))) && ((txHas == old(txHas) && *fanCurveDataMap != nil && mapdom(*fanCurveDataMap) == jsonDom[old(txVal)["fans"][*key]] && mapval(*fanCurveDataMap) == jsonValF[old(txVal)["fans"][*key]] && mapvalk(*fanCurveDataMap) == jsonValFK[old(txVal)["fans"][*key]]) || (!(old(txVal)["fans"][*key] in jsonOkF) && txHas == old(txHas)["fans" := old(txHas)["fans"][*key := false]]))
+//@   ensures txVal == old(txVal) && txBucket == old(txBucket) && txWF()
+//@   modifies txHas, txVal, decodeFailed, *fanCurveDataMap
+
+//@ func (persistence).LoadFanPwmData
+//@   props C14
+//@   returns (data, err)
+//@   requires fans.fanWF(fan) && dbWF()
+//@   ensures[C14.load.missing] !old(dbHas)["fans"][fanId(fan)] ==> err != nil && (err == os.ErrNotExist || dbHas == old(dbHas)) && dbHas == old(dbHas) && dbVal == old(dbVal)
+//@   ensures[C14.load.discard] err == nil && old(dbHas)["fans"][fanId(fan)] ==> (decodeFailed == !dbHas["fans"][fanId(fan)])
+//@   ensures[C14.load.roundtrip] err == nil && old(dbHas)["fans"][fanId(fan)] && (old(dbVal)["fans"][fanId(fan)] in jsonOkF) ==> data != nil && dbHas == old(dbHas) && encF(old(dbVal)["fans"][fanId(fan)], data)
+//@   ensures[C14.load.isolated] othersSame("fans", fanId(fan)) && dbVal == old(dbVal)
+//@   ensures dbWF()
+//@   modifies dbBucket, dbHas, dbVal, txBucket, txHas, txVal, decodeFailed
+
+//@ func (persistence).DeleteFanPwmData$1
+//@   requires db != nil
+//@   modifies nothing
+//@ func (persistence).DeleteFanPwmData$2
+//@   props C14
+//@   requires tx != nil && txWF()
+//@   ensures result == nil ==> txHas == old(txHas)["fans" := old(txHas)["fans"][*key := false]]
+//@   ensures result != nil ==> txHas == old(txHas)
+//@   ensures[C14.tx.idem] !old(txHas)["fans"][*key] ==> result == nil
+//@   ensures txVal == old(txVal) && txBucket == old(txBucket) && txWF()
+//@   modifies txHas, txVal
+
+//@ func (persistence).DeleteFanPwmData
+//@   props C14
+//@   requires fans.fanWF(fan) && dbWF()
+//@   ensures[C14.delete] result == nil ==> !dbHas["fans"][fanId(fan)]
+//@   ensures[C14.delete.isolated] othersSame("fans", fanId(fan))
+//@   ensures[C14.delete.atomic] result != nil ==> dbHas == old(dbHas) && dbVal == old(dbVal)
+//@   ensures dbWF()
+//@   modifies dbBucket, dbHas, dbVal, txBucket, txHas, txVal
+
+// ---- pwm maps (bucket "fanPwmMap") ---------------------------------------------------------------------------
+
+//@ func (persistence).SaveFanPwmMap$1
+//@   requires db != nil
+//@   modifies nothing
+//@ func (persistence).SaveFanPwmMap$2
+//@   props C14
+//@   requires tx != nil && txWF()
+//@   ensures result == nil ==> txHas == old(txHas)["fanPwmMap" := old(txHas)["fanPwmMap"][*key := true]] && txVal == old(txVal)["fanPwmMap" := old(txVal)["fanPwmMap"][*key := strof(*data)]] && txBucket == old(txBucket)["fanPwmMap" := true]
+//@   ensures txWF()
+//@   modifies txBucket, txHas, txVal
+
+//@ func (persistence).SaveFanPwmMap
+//@   props C14
+//@   requires dbWF()
+//@   ensures[C14.savemap.has]  err == nil ==> dbHas["fanPwmMap"][fanId] && othersSame("fanPwmMap", fanId)
+//@   ensures[C14.savemap.val]  err == nil ==> (dbVal["fanPwmMap"][fanId] in jsonOkI) && encI(dbVal["fanPwmMap"][fanId], pwmMap)
+//@   ensures[C14.savemap.atomic] err != nil ==> dbHas == old(dbHas) && dbVal == old(dbVal) && dbBucket == old(dbBucket)
+//@   ensures[C14.savemap.arg] mapdom(pwmMap) == old(mapdom(pwmMap)) && mapval(pwmMap) == old(mapval(pwmMap))
+//@   ensures dbWF()
+//@   modifies dbBucket, dbHas, dbVal, txBucket, txHas, txVal, pwmMap[_]
+//@   loop 1 "for key, value := range pwmMap"
+//@     invariant mapdom(pwmMap) == old(mapdom(pwmMap)) && mapval(pwmMap) == old(mapval(pwmMap)) && len(pwmMap) == old(len(pwmMap))
+
+//@ func (persistence).LoadFanPwmMap$1
+//@   requires db != nil
+//@   modifies nothing
+//@ func (persistence).LoadFanPwmMap$2
+//@   props C14
+//@   requires tx != nil && txWF()
+//@   ensures[C14.tx.missing] !old(txHas)["fanPwmMap"][*key] ==> result == os.ErrNotExist && txHas == old(txHas) && txVal == old(txVal)
+//@   ensures[C14.tx.present] old(txHas)["fanPwmMap"][*key] ==> result == nil && (decodeFailed == (txHas != old(txHas))) && ((txHas == old(txHas) && *pwmMap != nil && mapdom(*pwmMap) == jsonDom[old(txVal)["fanPwmMap"][*key]] && mapval(*pwmMap) == jsonValI[old(txVal)["fanPwmMap"][*key]]) || (!(old(txVal)["fanPwmMap"][*key] in jsonOkI) && txHas == old(txHas)["fanPwmMap" := old(txHas)["fanPwmMap"][*key := false]]))
+//@   ensures txVal == old(txVal) && txBucket == old(txBucket) && txWF()
+//@   modifies txHas, txVal, decodeFailed, *pwmMap
+
+//@ func (persistence).LoadFanPwmMap
+//@   props C14
+//@   returns (data, err)
+//@   requires dbWF()
+//@   ensures[C14.loadmap.missing] !old(dbHas)["fanPwmMap"][fanId] ==> err != nil && dbHas == old(dbHas) && dbVal == old(dbVal)
+//@   ensures[C14.loadmap.discard] err == nil && old(dbHas)["fanPwmMap"][fanId] ==> (decodeFailed == !dbHas["fanPwmMap"][fanId])
+//@   ensures[C14.loadmap.roundtrip] err == nil && old(dbHas)["fanPwmMap"][fanId] && (old(dbVal)["fanPwmMap"][fanId] in jsonOkI) ==> data != nil && dbHas == old(dbHas) && encI(old(dbVal)["fanPwmMap"][fanId], data)
+//@   ensures[C14.loadmap.isolated] othersSame("fanPwmMap", fanId) && dbVal == old(dbVal)
+//@   ensures dbWF()
+//@   modifies dbBucket, dbHas, dbVal, txBucket, txHas, txVal, decodeFailed
+
+//@ func (persistence).DeleteFanPwmMap$1
+//@   requires db != nil
+//@   modifies nothing
+//@ func (persistence).DeleteFanPwmMap$2
+//@   props C14
+//@   requires tx != nil && txWF()
+//@   ensures result == nil ==> txHas == old(txHas)["fanPwmMap" := old(txHas)["fanPwmMap"][*key := false]]
+//@   ensures result != nil ==> txHas == old(txHas)
+//@   ensures[C14.tx.idem] !old(txHas)["fanPwmMap"][*key] ==> result == nil
+//@   ensures txVal == old(txVal) && txBucket == old(txBucket) && txWF()
+//@   modifies txHas, txVal
+
+//@ func (persistence).DeleteFanPwmMap
+//@   props C14
+//@   requires dbWF()
+//@   ensures[C14.deletemap] result == nil ==> !dbHas["fanPwmMap"][fanId]
+//@   ensures[C14.deletemap.isolated] othersSame("fanPwmMap", fanId)
+//@   ensures[C14.deletemap.atomic] result != nil ==> dbHas == old(dbHas) && dbVal == old(dbVal)
+//@   ensures dbWF()
+//@   modifies dbBucket, dbHas, dbVal, txBucket, txHas, txVal
